@@ -94,36 +94,6 @@ def params_to_variables(p, admittance, add_c, add_l):
     return np.array(v, dtype=float)
 
 
-def design_matrix(f, tau, X, kind, admittance, add_c, add_l):
-    """Row-scaled real design matrix of the documented formulation (Boukamp eqs. 8-13: rows divided by |X_i|).
-
-    kind 'complex': real rows stacked on imaginary rows, all columns.
-    kind 'real':    real rows; only R and the RC columns have a real part (C, L come from a second, 2-column step).
-    kind 'imaginary': imaginary rows; all columns but R (R comes from a weighted mean afterwards).
-    """
-    B = basis(f, tau, admittance, add_c, add_l)
-    s = 1.0 / np.abs(X)
-    M = len(tau)
-    if kind == "complex":
-        A = np.vstack([B.real * s[:, None], B.imag * s[:, None]])
-    elif kind == "real":
-        A = B.real[:, : 1 + M] * s[:, None]
-    else:
-        A = B.imag[:, 1:] * s[:, None]
-    return A
-
-
-def cond_numbers(A):
-    """(cond of A, cond of A with unit-norm columns)."""
-    sv = np.linalg.svd(A, compute_uv=False)
-    c1 = sv[0] / sv[-1] if sv[-1] > 0 else np.inf
-    n = np.linalg.norm(A, axis=0)
-    n[n == 0] = 1.0
-    sv = np.linalg.svd(A / n, compute_uv=False)
-    c2 = sv[0] / sv[-1] if sv[-1] > 0 else np.inf
-    return float(c1), float(c2)
-
-
 def counts(N, num_RC, kind, add_c, add_l):
     """(#unknowns, #equations) of the main linear system of a variant."""
     if kind == "complex":
@@ -184,10 +154,6 @@ def _svals(A):
     return np.linalg.svd(A, compute_uv=False)
 
 
-def _norm2(A):
-    return float(np.linalg.norm(A, 2)) if A.size else 0.0
-
-
 def solver_class(test):
     """lstsq: numpy.linalg.lstsq on the unweighted systems; pinv: pseudo-inverse of the row-scaled systems;
     inv: inverse of the normal equations of the row-scaled system; cnls: iterative fit of the Boukamp-weighted problem."""
@@ -198,8 +164,11 @@ def solver_class(test):
     return "pinv" if test.endswith("-inv") else "lstsq"
 
 
-def gate_stats(f, tau, var, test, admittance, add_c, add_l):
+def gate_stats(f, tau, var, test, admittance, add_c, add_l, X=None):
     """Conditioning statistics of an instance (all from the harness's own matrices, never from library output).
+
+    var: the variables of the spectrum (C07: the generating ones).  X: the immittance data if they are not exactly
+    B @ var (C09: noisy / foreign spectra; var is then the harness's own least-squares solution, harness_solution()).
 
     ratio    #unknowns / #equations of the main system
     perdec   RC elements per decade of the (extended) time-constant range
@@ -221,7 +190,9 @@ def gate_stats(f, tau, var, test, admittance, add_c, add_l):
     kind = base_kind(test)
     scaled = solver_class(test) != "lstsq"
     B = basis(f, tau, admittance, add_c, add_l)
-    X = B @ var
+    if X is None:
+        X = B @ var
+    X = np.asarray(X, dtype=complex)
     aX = np.abs(X)
     unk, eq = counts(len(f), len(tau), kind, add_c, add_l)
     st = {"ratio": unk / eq, "perdec": float((len(tau) - 1) / max(1e-9, np.log10(tau[-1] / tau[0]))),
@@ -262,6 +233,18 @@ def gate_stats(f, tau, var, test, admittance, add_c, add_l):
         else:
             st["kappan"] = st["kparn"] = np.inf
     return st
+
+
+def harness_solution(f, tau, X, admittance, add_c, add_l):
+    """Least-squares solution of the complex, Boukamp-weighted problem with unit-norm columns (a numerically benign
+    formulation); used only to size the terms of a foreign spectrum for the conditioning gate."""
+    B = basis(f, tau, admittance, add_c, add_l)
+    s = 1.0 / np.abs(X)
+    A = np.vstack([B.real * s[:, None], B.imag * s[:, None]])
+    b = np.concatenate([X.real * s, X.imag * s])
+    n = np.linalg.norm(A, axis=0)
+    n[n == 0] = 1.0
+    return np.linalg.lstsq(A / n, b, rcond=None)[0] / n
 
 
 def placeholder_artefact(f, Z, test, admittance, add_c):
